@@ -3,6 +3,17 @@
 //! reported as `UNTRANSLATABLE <file>:<item>: <reason>` and the run exits 1.
 mod util;
 mod amount;
+mod bootcache;
+mod quote;
+mod wire;
+mod parsers;
+mod store;
+mod register;
+mod fetcher;
+mod quorum;
+mod upgrade;
+mod upgrade_clap;
+mod validate;
 
 use std::path::PathBuf;
 
@@ -14,6 +25,16 @@ fn main() {
     std::fs::create_dir_all(&outdir).expect("outdir");
     let gens: Vec<(&str, fn(&PathBuf) -> Result<String, String>)> = vec![
         ("Amount", amount::generate),
+        ("BootCache", bootcache::generate),
+        ("Quote", quote::generate),
+        ("Wire", wire::generate),
+        ("Parsers", parsers::generate),
+        ("Store", store::generate),
+        ("Register", register::generate),
+        ("Fetcher", fetcher::generate),
+        ("Quorum", quorum::generate),
+        ("Upgrade", upgrade::generate),
+        ("Validate", validate::generate),
     ];
     let mut failed = false;
     for (name, g) in gens {
